@@ -116,7 +116,10 @@ def apply_step(p, step):
             # p[i] = an opcode of the same class whose argument compares equal but is not the
             # same value (True for 1, -0.0 for 0.0, ...), or an identical copy
             if n:
-                i = step[1] % n
+                # prefer an opcode that has an equal-but-different twin argument
+                cands = [j for j in range(n) if isinstance(p[j].arg, (bool, float))
+                         or (isinstance(p[j].arg, int) and p[j].arg in (0, 1) and p[j].name == "INT")]
+                i = cands[step[1] % len(cands)] if cands else step[1] % n
                 old = p[i]
                 twins = {True: 1, False: 0}
                 arg = old.arg
